@@ -78,9 +78,21 @@ async fn asynchronous(worterbuch: &CloneableWbApi, config: &Config) -> Persisten
     )
     .await?;
 
+    #[cfg(feature = "verif")]
+    crate::verif::crash_point("before-timestamp")?;
     File::create(&last_persisted).await?;
+    #[cfg(feature = "verif")]
+    crate::verif::crash_point("after-timestamp")?;
 
     Ok(())
+}
+
+#[cfg(feature = "verif")]
+pub(crate) async fn verif_asynchronous(
+    worterbuch: &CloneableWbApi,
+    config: &Config,
+) -> PersistenceResult<()> {
+    asynchronous(worterbuch, config).await
 }
 
 #[instrument("persist_synchronously", level=Level::DEBUG, skip(worterbuch, config), err)]
@@ -118,7 +130,11 @@ pub(crate) async fn synchronous(
     )
     .await?;
 
+    #[cfg(feature = "verif")]
+    crate::verif::crash_point("before-timestamp")?;
     File::create(&last_persisted).await?;
+    #[cfg(feature = "verif")]
+    crate::verif::crash_point("after-timestamp")?;
 
     Ok(())
 }
@@ -144,11 +160,19 @@ async fn write_and_check(
 async fn write_to_disk(data: &[u8], path: &Path) -> PersistenceResult<()> {
     debug!("Writing file {} …", path.to_string_lossy());
     let tmp_file = format!("{}.tmp", path.to_string_lossy());
+    #[cfg(feature = "verif")]
+    crate::verif::crash_point("before-tmp-write")?;
     write_file(&tmp_file, data).await?;
+    #[cfg(feature = "verif")]
+    crate::verif::crash_point("after-tmp-write")?;
     validate_file_content(&tmp_file, data).await?;
+    #[cfg(feature = "verif")]
+    crate::verif::crash_point("after-tmp-validate")?;
     fs::rename(tmp_file, path)
         .instrument(debug_span!("rename"))
         .await?;
+    #[cfg(feature = "verif")]
+    crate::verif::crash_point("after-rename")?;
     debug!("Writing file {} done.", path.to_string_lossy());
 
     Ok(())
@@ -157,6 +181,8 @@ async fn write_to_disk(data: &[u8], path: &Path) -> PersistenceResult<()> {
 #[instrument(level=Level::DEBUG, skip(data), err)]
 async fn write_file<P: AsRef<Path> + Debug>(path: P, data: &[u8]) -> PersistenceResult<()> {
     let mut file = File::create(&path).await?;
+    #[cfg(feature = "verif")]
+    crate::verif::crash_point("tmp-created-empty")?;
     file.write_all(data).await?;
     file.flush().await?;
     Ok(())
@@ -289,6 +315,10 @@ pub(crate) async fn file_paths(
     toggle_path.push(".toggle");
 
     let main = toggle_alternating_files(&toggle_path, write).await?;
+    #[cfg(feature = "verif")]
+    if write {
+        crate::verif::crash_point("after-toggle")?;
+    }
 
     let mut store_path = dir.clone();
     let mut store_path_checksum = dir.clone();
